@@ -16,7 +16,7 @@ type c04Profile struct {
 }
 
 // targets that may sit on shards and be moved: (series, total)
-var c04Movers = [][2]int64{{40, 40}, {10, 60}, {30, 30}, {60, 60}, {60, 60}}
+var c04Movers = [][2]int64{{40, 40}, {10, 60}, {30, 30}, {60, 60}, {60, 60}, {130, 130}}
 
 var c04Profiles = []c04Profile{
 	{"empty", nil, 0},
@@ -29,6 +29,8 @@ var c04Profiles = []c04Profile{
 	{"A+C+fill30", []int{0, 2}, 30},
 	{"D+D", []int{3, 4}, 0}, // targets alone exceed both limits: relief really moves something
 	{"A+C+D", []int{0, 2, 3}, 0},
+	{"GROWN", []int{5}, 0}, // one assigned target that has outgrown a whole shard
+	{"GROWN+C", []int{5, 2}, 0},
 }
 
 // new unscraped targets (series, total)
@@ -174,6 +176,43 @@ func c04Oracle(sc *h1.Scenario, o *h1.Obs) []Finding {
 				if s.Proc+addP >= opt.MaxProc {
 					fs = append(fs, Finding{Clause: "process-limit", Sig: "C04:process-limit",
 						Detail: fmt.Sprintf("shard %d reported process %d, placed %v (+%d) reaches limit %d", si, s.Proc, newly, addP, opt.MaxProc)})
+				}
+			}
+			// a shard whose overload is due to a target that alone exceeds a limit: that target can go
+			// nowhere, so it must not cause a scale-up either (the rest of the shard fits its limits)
+			grownOnly := overloaded
+			for si := range rep.Shards {
+				s := &rep.Shards[si]
+				if !(s.Proc >= opt.MaxProc || (opt.MaxHead != 0 && float64(s.Head) >= 1.1*float64(opt.MaxHead))) {
+					continue
+				}
+				var restH, restP int64
+				big := false
+				for _, st := range s.Status {
+					if oversized([2]int64{st.Series, st.Total}) {
+						big = true
+					} else {
+						restH += st.Series
+						restP += st.Total
+					}
+				}
+				// stale head series beyond the targets' own also count as "rest"
+				var sumH int64
+				for _, st := range s.Status {
+					sumH += st.Series
+				}
+				restH += s.Head - sumH
+				if !big || restP >= opt.MaxProc || (opt.MaxHead != 0 && float64(restH) >= 1.1*float64(opt.MaxHead)) {
+					grownOnly = false
+				}
+			}
+			if grownOnly && len(eligibleUnplacedAny(sc, rep, ro)) == 0 {
+				cur := int32(len(rep.Shards))
+				for _, arg := range ro.Scales {
+					if arg > cur && arg > opt.MinShard {
+						fs = append(fs, Finding{Clause: "oversized-scale-up", Sig: "C04:oversized-scale-up:assigned-target-grew",
+							Detail: fmt.Sprintf("ChangeScale(%d) above current %d although the only excess load is an assigned target that alone exceeds a limit", arg, cur)})
+					}
 				}
 			}
 			// an oversized target never causes a scale-up
